@@ -1,8 +1,9 @@
 """C33 - invalid_subset reports exactly the constraint addresses a model cannot trace.
 
 Enumerated: a catalog of hand-written genjax models (static with nested call / tuple addresses,
-vmap, repeat, scan, switch with disjoint and overlapping branches, mask, vmap and scan nested in a
-static function) x argument variants x ALL subsets (quick: size <= 3, thorough: all 64) of a
+vmap, repeat, scan, switch with disjoint and overlapping branches, switch whose branches are a bare
+distribution and a structured function (the switch address is a leaf AND an internal node), mask,
+vmap and scan nested in a static function) x argument variants x ALL subsets (quick: size <= 3, thorough: all 64) of a
 6-address pool per model (valid addresses, a misspelled one, an address that is only valid under a
 prefix, an invalid address under a valid prefix, indexed / un-indexed variants) x two ways of
 building the choice map (`|` chain, `.at[..].set` chain).
@@ -43,8 +44,8 @@ ASSUMPTIONS = [
     "leak into this property",
 ]
 BOUNDS = {
-    "quick": dict(models=12, arg_variants="1-3 per model (switch index array(0), 0; mask flag True, False, array(False))", pool=6, subset_size_max=3, builders="| chain for every subset, .at[..].set chain for every second subset of size >= 2", jit=False),
-    "thorough": dict(models=12, arg_variants="1-3 per model (switch index array(0), 0, array(1); mask flag True, False, array(False))", pool=6, subset_size_max=6, builders="| chain for every subset, .at[..].set chain for every second subset of size >= 2", jit="size<=2 subsets"),
+    "quick": dict(models=14, arg_variants="1-3 per model (switch index array(0), 0; mask flag True, False, array(False))", pool=6, subset_size_max=3, builders="| chain for every subset, .at[..].set chain for every second subset of size >= 2", jit=False),
+    "thorough": dict(models=14, arg_variants="1-3 per model (switch index array(0), 0, array(1); mask flag True, False, array(False))", pool=6, subset_size_max=6, builders="| chain for every subset, .at[..].set chain for every second subset of size >= 2", jit="size<=2 subsets"),
 }
 JOBS = {"quick": 8, "thorough": 12}
 
@@ -172,8 +173,45 @@ def _models():
         r = inner.mask()(f, x) @ "m"
         return r
 
+    # switch whose branches disagree about the *kind* of the switch address: a bare distribution makes
+    # the address itself a traceable leaf, a structured branch makes it an internal node.  The shape
+    # selection there is LeafSel | StaticSel(..) - the only way to reach OrSel.check.
+    @gen
+    def struct_y():
+        return genjax.uniform(0.0, 1.0) @ "y"
+
+    sw_leaf_struct = genjax.switch(genjax.normal, struct_y)
+
+    @gen
+    def switch_leaf_and_struct_in_static():
+        c = genjax.categorical(probs=[0.3, 0.7]) @ "choice"
+        return sw_leaf_struct(c, (0.0, 1.0), ()) @ "out"
+
+    @gen
+    def struct_y_sub(x):
+        y = genjax.normal(x, 1.0) @ "y"
+        s = inner(y) @ "sub"
+        return s
+
+    sw_struct_leaf = genjax.switch(struct_y_sub, genjax.uniform)
+
+    @gen
+    def switch_struct_and_leaf_in_static(idx):
+        v = genjax.normal(0.0, 1.0) @ "x"
+        return sw_struct_leaf(idx, (v,), (0.0, 1.0)) @ "out"
+
     arr = lambda: jnp.zeros(N)  # noqa: E731
     M = {}
+    M["switch_leaf_and_struct_in_static"] = dict(
+        gf=switch_leaf_and_struct_in_static, args=[lambda: ()],
+        T={("choice",), ("out",), ("out", "y")},
+        pool=[("out",), ("out", "y"), ("out", "q"), ("out", "y", "deeper"), ("extra",), ("choice",)],
+    )
+    M["switch_struct_and_leaf_in_static"] = dict(
+        gf=switch_struct_and_leaf_in_static, args=[lambda: (jnp.array(1),), lambda: (jnp.array(0),)],
+        T={("x",), ("out",), ("out", "y"), ("out", "sub", "a"), ("out", "sub", "b")},
+        pool=[("out",), ("out", "sub", "a"), ("out", "sub"), ("out", "y", "deeper"), ("extra",), ("x",)],
+    )
     M["static3"] = dict(
         gf=static3, args=[lambda: (0.5,)], T={("x",), ("w",), ("sub", "a"), ("sub", "b")},
         pool=[("x",), ("sub", "a"), ("xx",), ("sub", "c"), ("a",), (0, "x")],
@@ -232,9 +270,9 @@ def _models():
 MODEL_NAMES = [
     "static3", "static_tuple", "static_str_and_tuple", "vmap_static", "repeat_static", "scan_kernel",
     "switch_disjoint", "switch_overlap_in_static", "mask_static", "vmap_in_static", "scan_in_static",
-    "masked_in_static",
+    "masked_in_static", "switch_leaf_and_struct_in_static", "switch_struct_and_leaf_in_static",
 ]
-N_ARGS = {"switch_disjoint": 3, "mask_static": 3}
+N_ARGS = {"switch_disjoint": 3, "mask_static": 3, "switch_struct_and_leaf_in_static": 2}
 
 # =============================================================================================
 # reference
@@ -400,6 +438,7 @@ def _component(name):
         "vmap_static": "vmap", "repeat_static": "repeat", "scan_kernel": "scan",
         "switch_disjoint": "switch", "switch_overlap_in_static": "switch", "mask_static": "mask",
         "vmap_in_static": "vmap", "scan_in_static": "scan", "masked_in_static": "mask",
+        "switch_leaf_and_struct_in_static": "switch", "switch_struct_and_leaf_in_static": "switch",
     }[name]
 
 
@@ -491,6 +530,8 @@ def cases(tier, seed):
         n_args = N_ARGS.get(name, 1)
         if tier == "quick" and name == "switch_disjoint":
             n_args = 2  # array(0) and the concrete index 0; array(1) is added in the thorough tier
+        if tier == "quick" and name == "switch_struct_and_leaf_in_static":
+            n_args = 1  # index array(1) (the leaf branch); array(0) is added in the thorough tier
         for ai in range(n_args):
             for half in (0, 1):  # two cases per model: the subsets are dealt out alternately
                 yield Case(f"{name}/args{ai}/h{half}", _run(name, ai, tier, half),
